@@ -75,13 +75,24 @@ class PersisterHandle:
 PERSISTER_MEDIA = ('persister:memory', 'persister:pickle')
 
 
-def save(proc, medium, loader=None, tag=None):
+def save(proc, medium, loader=None, tag=None, store=None):
+    """``store``: dict kept by the caller in which the persister of each medium lives for the whole run, so that later
+    checkpoints under the same (pid, tag) overwrite earlier ones in the same persister."""
     plumpy = seams.install()
     if medium == 'persister:memory':
-        persister = plumpy.InMemoryPersister(loader=loader)
+        persister = store.get(medium) if store is not None else None
+        if persister is None:
+            persister = plumpy.InMemoryPersister(loader=loader)
+            if store is not None:
+                store[medium] = persister
         persister.save_checkpoint(proc, tag)
         return PersisterHandle(persister, proc.pid, tag=tag)
     if medium == 'persister:pickle':
+        known = store.get(medium) if store is not None else None
+        if known is not None:
+            persister, directory = known
+            persister.save_checkpoint(proc, tag)
+            return PersisterHandle(persister, proc.pid, None, tag=tag)  # (the directory belongs to the first handle)
         directory = tempfile.mkdtemp(prefix='simkit-restart-')
         try:
             persister = plumpy.PicklePersister(directory)
@@ -89,6 +100,8 @@ def save(proc, medium, loader=None, tag=None):
         except BaseException:
             shutil.rmtree(directory, ignore_errors=True)
             raise
+        if store is not None:
+            store[medium] = (persister, directory)
         return PersisterHandle(persister, proc.pid, directory, tag=tag)
     context = plumpy.LoadSaveContext(loader=loader) if loader is not None else None
     bundle = plumpy.Bundle(proc, context)
@@ -164,6 +177,7 @@ class RestartRun:
         self.lose_at = [int(b) for b in (lose_at or [])]
         self.handles = []
         self.last_handle = None
+        self.store = {}  # one persister per medium for the whole run: checkpoints under one key overwrite each other
         self.exit_ordinal = 0
         self.played_ordinal = 0
         self.step_ordinal = 0
@@ -171,7 +185,8 @@ class RestartRun:
         self.world.site_hook = self._in_user_code
 
     def _save(self, proc, tag=None):
-        bundle = save(proc, self._medium(), self._loader(), tag)
+        bundle = save(proc, self._medium(), self._loader(), tag, self.store)
+        self.lagging = None  # a newer checkpoint supersedes the one an instance was running away from
         if isinstance(bundle, PersisterHandle):
             self.handles.append(bundle)
         return bundle
